@@ -249,6 +249,24 @@ pub fn forged_register_op(reg: &SignedRegister, n: u32, named: &bls::SecretKey, 
     forged
 }
 
+/// The fixed owner of "big" registers: its block of ops is signed once per process (keyed by register address).
+pub fn big_register_owner() -> bls::SecretKey {
+    bls_key(0xB16, 1)
+}
+
+/// `n` ops of the fixed big-register owner for `base`'s address, built once per process and address.
+pub fn big_block(base: &SignedRegister, n: u32) -> Vec<RegisterOp> {
+    use std::collections::HashMap;
+    use std::sync::{Mutex, OnceLock};
+    static BLOCKS: OnceLock<Mutex<HashMap<Vec<u8>, Vec<RegisterOp>>>> = OnceLock::new();
+    let owner = big_register_owner();
+    let key = rmp_serde::to_vec(base.address()).expect("ser address");
+    // built outside the lock-free path on purpose: a process builds each block once, other threads wait
+    let mut g = BLOCKS.get_or_init(|| Mutex::new(HashMap::new())).lock().unwrap_or_else(|e| e.into_inner());
+    let block = g.entry(key).or_insert_with(|| (0..600u32).map(|i| register_op(base, 10_000 + i, &owner)).collect());
+    block[..n as usize].to_vec()
+}
+
 pub fn register_with_ops(base: &SignedRegister, ops: &[RegisterOp]) -> SignedRegister {
     SignedRegister::new(
         base.base_register().clone(),
